@@ -145,6 +145,9 @@ pub const DIRECTED: &[(&str, usize, &str)] = &[
     // it fails (lens error) before the trace is consulted, and the xor's right branch meets the recorded
     // state (the recorded failed-call finding, DESIGN.md 12.7)
     ("failed-call-after-join", 2, r#"(xor (seq (par (call "@P0" ("svc" "f1") [] x) (null)) (call "@P1" ("svc" "f2") [x.$.nope])) (par (call "@P0" ("svc" "f3") []) (null)))"#),
+    // the left branch of an xor hands a call over to another peer (inside a par whose other side is complete)
+    // and then fails in the same run: the peer it forwarded to must still receive the particle
+    ("xor-left-forwards-then-fails", 3, r#"(seq (call "@P0" ("svc" "f0") [] x) (xor (seq (par (call "@P1" ("svc" "f1") [x]) (null)) (fail 7 "left fails after forwarding")) (call "@P2" ("svc" "f2") [x])))"#),
     // a stream map with string and number keys of the same text: both name one field of the map's JSON form
     ("colliding-map-keys", 2, r#"(seq (ap ("42" "s42") %m) (seq (ap (42 "n42") %m) (seq (ap ("7" "s7") %m) (seq (ap (7 "n7") %m) (seq (ap (-1 "n") %m) (seq (canon "@P0" %m #%cm) (seq (call "@P1" ("svc" "f1") [#%cm]) (seq (call "@P0" ("svc" "f2") [#%cm #%cm.length]) (canon "@P1" %m whole)))))))))"#),
     // new-scoped stream inside a stream fold, canonicalised per iteration
